@@ -276,7 +276,9 @@ var plainKeyPool = []string{"a", "b", "c", "d", "k1", "key", "é", "日本", "0"
 
 var intPool = []int{0, 1, -1, 2, 7, 42, -100, 1 << 31, math.MaxInt, math.MinInt, 1000000}
 
-var floatPool = []float64{0.5, -0.5, 1.5, 3.14, 1e-7, 1e300, -1e300, 2.0, math.Copysign(0, -1), 0.0, math.Inf(1), math.Inf(-1), 1e6, 123456.789}
+var floatPool = []float64{0.5, -0.5, 1.5, 3.14, 1e-7, 1e300, -1e300, 2.0, math.Copysign(0, -1), 0.0, math.Inf(1), math.Inf(-1), 1e6, 123456.789,
+	// pairs of distinct floats that are nearly equal (tolerant comparisons confuse them)
+	0.3, 0.1 + 0.2, 1.0, math.Nextafter(1, 2), 1e21, math.Nextafter(1e21, math.Inf(1)), 5e-324, 1e-323}
 
 // drawer is the minimal decision source generators need (a *simrt.Sim inside a run, a Chooser outside).
 type drawer interface {
